@@ -1,6 +1,10 @@
 package sim
 
-import "runtime/debug"
+import (
+	"runtime/debug"
+	"testing"
+	"time"
+)
 
 func stack() string { return string(debug.Stack()) }
 
@@ -8,10 +12,21 @@ var profiles = map[string]*Profile{
 	"base": {Name: "base"},
 }
 
-func (s *Sim) checkEvent(ev *eventCtx)        {}
-func (s *Sim) checkHelpers()                  {}
-func (s *Sim) checkReconcile(rec *Reconcile)  {}
-func (s *Sim) endOfRun()                      {}
-func (s *Sim) stepUpgrade(st Step) bool       { return false }
-func (s *Sim) stepMkBuiltin(st Step) bool     { return false }
+func (s *Sim) stepUpgrade(st Step) bool           { return false }
+func (s *Sim) stepMkBuiltin(st Step) bool         { return false }
 func (s *Sim) stepBuiltinController(st Step) bool { return false }
+
+func runEngineJob(t *testing.T, job Job) *Partial { return RunJob(t, job) }
+func minimizeEngine(t *testing.T, f Failure, budget time.Duration) *Replay {
+	return Minimize(t, f, budget)
+}
+func replayEngine(t *testing.T, r *Replay) (bool, uint64, string, []string) {
+	res := RunOne(t, r.spec())
+	if res.Harness != "" {
+		return false, 0, "harness: " + res.Harness, res.Trace
+	}
+	if v := findViolation(res, r.Check, r.Disc); v != nil {
+		return true, res.TraceHash, v.Detail, res.Trace
+	}
+	return false, res.TraceHash, "", res.Trace
+}
